@@ -4,6 +4,9 @@ import XsgModel.Proofs.TextLevel
 import XsgModel.Props.C14
 import XsgModel.Proofs.Hints
 import XsgModel.Model.RustSyntax
+import XsgModel.Proofs.UsedOnce
+import XsgModel.Proofs.TreeNames
+import XsgModel.Props.C11
 /-!
 # C04 — rendered source is well-formed Rust with unique, legal names
 
@@ -83,22 +86,6 @@ where
     cases o.sort
     · exact List.Perm.refl _
     · exact perm_sortOn _ _
-
-/-- the entry of a struct-typed child of an entry of the walk is itself an entry of the walk -/
-theorem child_entry_mem (s : SortBy) (en : Entry) (c : Nec × Elem) (hcm : c ∈ en.elem.children) (hto : c.2.textOnly = false)
-    (e : Elem) : ∀ (path trace : List Name), en ∈ walk s path trace e →
-      (⟨en.path ++ [c.2.name], en.trace ++ [pascal c.2.name], c.2⟩ : Entry) ∈ walk s path trace e := by
-  intro path trace h
-  rw [mem_walk] at h ⊢
-  rcases h with h | ⟨d, hd, htd, hend⟩
-  · right
-    rw [h] at hcm
-    simp only at hcm
-    refine ⟨c, hcm, hto, ?_⟩
-    rw [h, mem_walk]; left; rfl
-  · have := sizeOf_child_lt hd
-    exact Or.inr ⟨d, hd, htd, child_entry_mem s en c hcm hto d.2 _ _ hend⟩
-termination_by sizeOf e
 
 /-- every field type is `String` or a struct defined in the same output -/
 theorem C04_types_resolve (o : Options) (t : Elem) :
@@ -290,5 +277,72 @@ theorem C04_prefix_negative :
 example : ((renderAST Options.quickXmlDe
     (.mk (cl!"r") false true 1 [] [(.man, Elem.new (cl!"Foo") [cl!"a"]), (.man, Elem.new (cl!"foo") [cl!"a"])] none)).map (·.name))
     = [cl!"R", cl!"RFoo", cl!"RFoo1"] := by decide +kernel
+
+/-- each non-root struct is the type of exactly one field of the output -/
+theorem C04_used_once (o : Options) (t : Elem) (ht : t.Inv = true) :
+    ∀ s ∈ ((renderAST o t).map StructDef.plain).tail, usesOf ((renderAST o t).map StructDef.plain) s.name = 1 :=
+  used_once o t ht
+
+/-- per-entry side conditions from one condition on the tree -/
+theorem entry_conditions (o : Options) (t : Elem) (ht : t.Inv = true) (hok : TreeOK nameOK t) :
+    ∀ en ∈ walk o.sort [] [] t, nameOK en.elem.name = true ∧ (∀ a ∈ en.elem.attrs, nameOK a.2 = true) ∧
+      (∀ c ∈ en.elem.children, nameOK c.2.name = true) ∧ (names en.elem.attrs).Nodup ∧ (childNames en.elem.children).Nodup ∧
+      ∀ x ∈ en.path, nameOK x = true := by
+  intro en hen
+  obtain ⟨htree, hpath⟩ := treeOK_walk nameOK o.sort t hok [] [] en (by simp) hen
+  refine ⟨htree.name, ?_, ?_, htree.nodup, Inv_nodup (walk_inv o.sort t ht [] [] en hen), hpath⟩
+  · intro a ha; exact htree.attrs a.2 (by simp only [names, List.mem_map]; exact ⟨a, ha, rfl⟩)
+  · intro c hc; exact (htree.kids c hc).name
+
+/-- **C04 in one statement, for trees**: if every name of the tree is in C04's domain (`nameOK`), attribute
+names are distinct per element and child names are distinct per parent, the rendered program is `WellFormed`:
+unique legal struct names that do not shadow `String`/`Option`/`Vec`, unique legal field identifiers, field types
+that resolve, every non-root struct used exactly once. -/
+theorem C04_wellformed (o : Options) (t : Elem) (ht : t.Inv = true) (hok : TreeOK nameOK t) :
+    WellFormed ((renderAST o t).map StructDef.plain) := by
+  have hent := entry_conditions o t ht hok
+  refine ⟨?_, ?_, ?_, ?_, C04_used_once o t ht⟩
+  · have := C04_structs_unique o t ht
+    simpa [List.map_map, Function.comp_def, StructDef.plain] using this
+  · intro s hs
+    rw [List.mem_map] at hs
+    obtain ⟨s', hs', rfl⟩ := hs
+    exact C04_structs_legal o t ht (fun en hen x hx => nameOK_letterFirst ((hent en hen).2.2.2.2.2 x hx)) s' hs'
+  · intro s hs
+    rw [List.mem_map] at hs
+    obtain ⟨s', hs', rfl⟩ := hs
+    obtain ⟨en, hen, rfl⟩ := mem_renderWith hs'
+    obtain ⟨h1, h2, h3, h4, h5, _⟩ := hent en hen
+    constructor
+    · have := C04_fields_unique o (hintOf (fillNames [] t)) (structNames (hintOf (fillNames [] t)) t) en h4 h5
+      simpa [StructDef.plain, List.map_map, Function.comp_def, Field.plain] using this
+    · intro f hf
+      simp only [StructDef.plain, List.mem_map] at hf
+      obtain ⟨f', hf', rfl⟩ := hf
+      exact C04_fields_legal o _ _ en (nameOK_letterFirst h1) (fun a ha => nameOK_letterFirst (h2 a ha))
+        (fun c hc => nameOK_letterFirst (h3 c hc)) h4 h5 f' hf'
+  · intro s hs f hf
+    rw [List.mem_map] at hs
+    obtain ⟨s', hs', rfl⟩ := hs
+    simp only [StructDef.plain, List.mem_map] at hf
+    obtain ⟨f', hf', rfl⟩ := hf
+    rcases C04_types_resolve o t s' hs' f' hf' with h | ⟨s'', hs'', hn⟩
+    · exact Or.inl h
+    · right
+      simp only [List.map_map, List.mem_map, Function.comp]
+      exact ⟨s'', hs'', hn⟩
+
+/-- **C04 for histories**: for every history of well-formed documents with a common root whose names are all in
+C04's domain, the text rendered from the parsed tree reads back as a `WellFormed` program. -/
+theorem C04_history (o : Options) (ho : NoNL o.derive ∧ NoNL o.attrPrefix ∧ NoNL o.textIdent)
+    (H : List Doc) (h : historyOk H) (hn : ∀ d ∈ H, d.root.allNames nameOK = true) :
+    ∃ t p, parseHistory (H.map Doc.events) = .ok t ∧ readProgram (toSerdeStruct o t) = some p ∧ WellFormed p := by
+  obtain ⟨t, ht, _, htree⟩ := parse_treeOK nameOK H h hn
+  have hinv := C11_parsed_inv _ t ht
+  refine ⟨t, (renderAST o t).map StructDef.plain, ht, ?_, C04_wellformed o t hinv htree⟩
+  apply C04_text_reads_back o t ho
+  intro en hen
+  obtain ⟨h1, h2, h3, h4, h5, _⟩ := entry_conditions o t hinv htree en hen
+  exact ⟨h1, h2, h3, h4, h5⟩
 
 end Xsg
